@@ -142,7 +142,9 @@ type pageScript struct {
 	releaseEarly, speculative bool
 	// ctxMode: the caller gives the query a context: 0 no, 1 as the first option, 2 as the
 	// last one (after PageState and everything else) - options commute
-	ctxMode   int
+	ctxMode int
+	// scanGap: the Scanner consumer lets other callers run between Next() and Scan() of a row
+	scanGap   bool
 	consumer2 int
 	abandonAt int // >0: the first iteration stops after this many rows, just behind a page switch
 	faultGen  int // which execution the injected failure hits
@@ -394,6 +396,9 @@ func (pr *pageRun) drawScript(tp *kernel.Tape, ti, oi, qid, proto, sessPageSize 
 	if tp.Chance(1, 5) {
 		s.speculative = true
 		pr.k.Fault("page.idempotent-with-speculative-policy")
+	}
+	if tp.Chance(1, 3) {
+		s.scanGap = true
 	}
 	if !s.reexec && tp.Chance(1, 4) {
 		s.ctxMode = 1 + tp.Next(2)
@@ -1174,6 +1179,14 @@ func (pr *pageRun) iterate(t *kernel.Task, s *pageScript, g *pageExec, q *gocql.
 			if !ok {
 				complete = true
 				break
+			}
+			if s.scanGap {
+				// other callers' answers arrive between Next and Scan: what Next made current
+				// must still be there when Scan copies it out
+				pr.k.Probe("scanner-gap-between-next-and-scan")
+				if !t.Step(fmt.Sprintf("scan-after-next %s #%d", s.token, len(got))) {
+					break
+				}
 			}
 			var r pageRow
 			if s.wipe && s.wipeBlob {
